@@ -36,7 +36,7 @@ pub fn pipeline(c: &ChanCase) -> (String, String) {
     let n = c.values.len();
     let proto = Mv::new(c.kind, &[], 0, "");
     let ty = proto.ty();
-    let mut src = String::from(DECLS);
+    let mut src = decls_for(c.kind);
     let mut exp = String::new();
     src.push_str(&format!("let c1: channel<{ty}> = channel()\nlet c2: channel<{ty}> = channel()\nlet ack: channel<int> = channel()\nlet done: channel<int> = channel()\n"));
     // stage task
@@ -74,9 +74,8 @@ pub fn pipeline(c: &ChanCase) -> (String, String) {
         src.push_str(&format!("var busy = 0\nwhile busy < {k} {{\n  busy += 1\n}}\n"));
     }
     for (i, (m, received)) in mains.iter_mut().enumerate() {
-        let obs = received.observe("r");
+        let obs = received.observe(&format!("r{i}"));
         src.push_str(&format!("let r{i} = c2.read()\n"));
-        let obs = obs.replace("match r {", &format!("match r{i} {{")).replace("\"\" .. r", &format!("\"\" .. r{i}")).replace("r.x", &format!("r{i}.x")).replace("r.arr", &format!("r{i}.arr"));
         src.push_str(&format!("println({obs})\n"));
         exp.push_str(&format!("{}\n", received.rendered()));
         // the reader mutates its copy; then its own original must still show only its own mutation
@@ -143,7 +142,7 @@ impl Prop for Channels {
         "channels"
     }
     fn rule(&self) -> &'static str {
-        "one case = a pipeline (main -> stage task -> main over two channels; the stage mutates what it received, forwards it, then mutates it again; main mutates what it sent and what it received) or a fan-in (1..4 writer tasks x M messages into one channel) for values of 8 heap kinds; run at budgets 1000, 1, 3, generated budget sequences, and scripted GC schedules with quarantine; invariants: values are received exactly once, in order per writer, equal to what was written at write time, and later mutations on either side are invisible to the other; non-trivial = a heap value crosses a channel and the reader has to wait at least once; distinct by case"
+        "one case = a pipeline (main -> stage task -> main over two channels; the stage mutates what it received, forwards it, then mutates it again; main mutates what it sent and what it received) or a fan-in (1..4 writer tasks x M messages into one channel) for values of 12 heap kinds (arrays, nested arrays, structs, tuples, enum payloads, strings, options, payload-less variants, option<int>, a variant of a 300-variant enum, a struct holding scalar-payload enum objects); run at budgets 1000, 1, 3, generated budget sequences, and scripted GC schedules with quarantine; invariants: values are received exactly once, in order per writer, equal to what was written at write time, and later mutations on either side are invisible to the other; non-trivial = a heap value crosses a channel and the reader has to wait at least once; distinct by case"
     }
     fn n_cases(&self, tier: Tier) -> u32 {
         tier.pick(1200, 20000)
